@@ -203,9 +203,9 @@ func C06geom(p *load.Program, run *report.Run) {
 						init = types.ExprString(t.Rhs[0])
 					}
 				case *ast.IfStmt:
-					if be, ok := t.Cond.(*ast.BinaryExpr); ok && be.Op == token.GTR && types.ExprString(be.X) == v && len(effectiveQ(pkg.TypesInfo, t.Body.List)) == 1 {
-						if as, ok := effectiveQ(pkg.TypesInfo, t.Body.List)[0].(*ast.AssignStmt); ok && types.ExprString(as.Lhs[0]) == v && types.ExprString(as.Rhs[0]) == types.ExprString(be.Y) {
-							bound = types.ExprString(be.Y)
+					if big, small, strict, ok := ordCmp(t.Cond); ok && strict && types.ExprString(big) == v && len(effectiveQ(pkg.TypesInfo, t.Body.List)) == 1 {
+						if as, ok := effectiveQ(pkg.TypesInfo, t.Body.List)[0].(*ast.AssignStmt); ok && types.ExprString(as.Lhs[0]) == v && types.ExprString(as.Rhs[0]) == types.ExprString(small) {
+							bound = types.ExprString(small)
 						}
 					}
 				}
